@@ -24,6 +24,9 @@ use crate::p2p::{P2p, P2pError};
 use crate::store::{Store, StoreError};
 use crate::utils::{FusedReusableFuture, OneshotSenderExt, TimeExt};
 
+#[cfg(eigerco_lumina_verif)]
+pub(crate) mod verif_syncer;
+
 type Result<T, E = SyncerError> = std::result::Result<T, E>;
 
 const TRY_INIT_BACKOFF_MAX_INTERVAL: Duration = Duration::from_secs(60);
